@@ -273,6 +273,96 @@ def corpus_monitors(ctx, shim, r, ncases):
                          "vertical => x_advance = 0, glyph id <= 0xFFFF; non-trivial = at least one glyph returned")
 
 
+import _gposdev as GD
+import _kerx as KX
+
+TAGHEX = lambda t: t.encode().hex()
+
+
+def _kern_table(r, gl):
+    """an OpenType-flavour `kern` table (format 0, 1-2 subtables, horizontal / vertical / cross-stream)"""
+    import struct
+    out = struct.pack(">HH", 0, 0)
+    subs = []
+    for _ in range(r.range(1, 2)):
+        pairs = sorted({(r.choice(gl), r.choice(gl)) for _ in range(r.range(1, 12))})
+        body = struct.pack(">HHHH", len(pairs), 0, 0, 0) + b"".join(struct.pack(">HHh", a, b, r.range(-300, 300) or 9) for a, b in pairs)
+        cov = (1 if r.chance(3, 4) else 0) | (4 if r.chance(1, 5) else 0)
+        subs.append(struct.pack(">HHBB", 0, 6 + len(body), 0, cov) + body)
+    return struct.pack(">HH", 0, len(subs)) + b"".join(subs)
+
+
+def gpos_axis_search(ctx, shim, r, nfonts, ntexts):
+    """the second sentence of the property on GENERATED fonts: every positioning mechanism the crate has for OpenType
+    fonts — SinglePos / PairPos records with all eight value-format bits (hinting Device tables live at the request's
+    ppem, VariationIndex tables live at non-default coordinates), cursive and mark attachment, kern / kerx tables — in all
+    four directions; every glyph of every result must keep the off-axis advance 0 and a 16-bit glyph id."""
+    groups, meta = [], []
+    for f in range(nfonts):
+        rec, facts = GD.rand_gpos_font(r, KX, _kern_table)
+        lines = [f"font G{f} {fontbuild.hexfont(rec)}"]
+        ms = []
+        for _ in range(ntexts):
+            n = r.range(1, 7)
+            text = [r.choice(GD.F_BASES + GD.F_BASES + GD.F_MARKS) for _ in range(n)]
+            d = r.choice("lrtb")
+            feats = []
+            for t in ("vkrn", "kern", "dist"):
+                if r.chance(1, 3): feats.append(f"{TAGHEX(t)}:{r.choice([1, 1, 0])}:0:4294967295")
+            opts = []
+            k = r.below(8)
+            ppem = 0 if k == 0 else r.range(6, 40) if k == 1 or not facts["sizes"] else r.choice(facts["sizes"])
+            if ppem: opts.append(f"ppem={ppem}")
+            var = facts["variable"] and r.chance(2, 3)
+            if var: opts.append(f"var={TAGHEX('wght')}:{r.choice([900, 900, 650, 100])}")
+            t = ",".join(f"{0xE000 + g - 1:x}:{i}" for i, g in enumerate(text))
+            base = f"shape G{f} {d} - - {r.choice([0, 0, 3, 8])} {r.below(3)} {','.join(feats) or '-'} - - {t}"
+            lines.append(" ".join([base] + opts))
+            lines.append(base)                      # the same request on the default face: are the devices live?
+            ms.append((d, ppem, var))
+        lines.append(f"fontdrop G{f}")
+        groups.append(lines); meta.append((rec, facts, ms))
+    outs = vlib.run_groups(shim, groups, timeout=900)
+    stats = {"shapes": 0, "glyphs": 0, "device_live": 0, "device_live_per_dir": {d: 0 for d in "lrtb"},
+             "variation_live": 0, "per_layout": {}, "per_dir": {d: 0 for d in "lrtb"}, "fonts_with_device": 0}
+    reported = 0
+    for (rec, facts, ms), o, g in zip(meta, outs, groups):
+        if o[0] != "ok":
+            ctx.violation(f"generated GPOS font rejected: {o[0]}", {"stage": "search", "stream": "axis-gid16", "generator": "gpos-fonts",
+                          "font_line": g[0][:200]}); continue
+        stats["per_layout"][facts["layout"]] = stats["per_layout"].get(facts["layout"], 0) + 1
+        if facts["has_device"]: stats["fonts_with_device"] += 1
+        for t, (d, ppem, var) in enumerate(ms):
+            for which in (0, 1):
+                reply, req = o[1 + 2 * t + which], g[1 + 2 * t + which]
+                stats["shapes"] += 1
+                bad, n = monitor_line(reply, d in "lr")
+                stats["glyphs"] += n
+                if reply.startswith(("panic", "abort", "timeout")):
+                    ctx.cov.setdefault("generated_font_crashes_seen", []).append({"dir": d, "reply": reply[:120]})
+                    continue
+                if bad and reported < 3:
+                    reported += 1
+                    ctx.violation(f"{bad} — generated GPOS font ({facts['layout']}; lookups {facts['kinds']} under features "
+                                  f"{facts['features']}), direction {d}, ppem {ppem or 'unset'}, "
+                                  f"{'non-default variation coordinates' if var and which == 0 else 'default coordinates'}",
+                                  {"stage": "search", "stream": "axis-gid16", "generator": "gpos-fonts", "font_line": g[0],
+                                   "request": req, "reply": reply[:2000], "what": bad, "facts": facts, "recipe": rec})
+            stats["per_dir"][d] += 1
+            if o[1 + 2 * t] != o[2 + 2 * t]:
+                if ppem: stats["device_live"] += 1; stats["device_live_per_dir"][d] += 1
+                elif var: stats["variation_live"] += 1        # no ppem: only the variation store can have done it
+    ctx.note_search("axis-gid16-gpos", stats["shapes"], stats["device_live"] + stats["variation_live"], detail=stats,
+                    rule="generated fonts (tools/props/_gposdev.py): 1-4 GPOS lookups out of SinglePos 1/2 and PairPos 1/2 with random "
+                         "value formats over all eight bits (hinting Device tables of formats 1-3 with non-zero deltas, "
+                         "VariationIndex tables into a GDEF variation store), cursive, mark-to-base, mark-to-mark, under the "
+                         "features mark / kern / dist / vkrn, optionally a kern or a kerx table (kerx replaces GPOS when there is "
+                         "no GSUB), vmtx / VORG, one fvar axis x random texts x 4 directions x ppem at a live size / other / unset x "
+                         "variation coordinates default / not x user features; each request also on the default face; "
+                         "monitors on every reply: horizontal => y_advance = 0, vertical => x_advance = 0, glyph id <= 0xFFFF; "
+                         "non-trivial = the ppem / the coordinates changed the result (a device was live)")
+
+
 def macroman_search(ctx, shim):
     """UNICODE_TO_MACROMAN (face.rs; regenerated into Gen/Pipeline.lean, so the model follows the crate) against
     an independent copy: CPython's `mac_roman` codec."""
@@ -293,8 +383,11 @@ def run(ctx):
         "pipeline-shape (public shape()) correspondence streams; the font binary is produced from the same recipe "
         "the model reads, so the sfnt builder and ttf-parser sit inside the loop",
         "C16_axis is proved for the steps the model has (position_default, fallback spaces, mark zeroing, default-"
-        "ignorable zeroing, reversal, hiding); value records, kerning, tracking, cursive and stch are other cores' "
-        "models — for those the axis / 16-bit monitors run on the implementation over the repository corpus",
+        "ignorable zeroing, reversal, hiding) and, separately, for GPOS value records with all eight value-format bits "
+        "(C16_axis_value_record / _apply / _pair_apply over the Gpos.lean model, device and variation deltas as parameters; tied "
+        "to the crate by C07's gpos-apply-device correspondence); kerning, tracking, cursive, mark attachment and stch are "
+        "covered by the axis / 16-bit monitors on the implementation: over generated GPOS / kern / kerx fonts with live Device "
+        "and VariationIndex tables (axis-gid16-gpos) and over the repository corpus",
         "glyph_v_origin is modelled for VORG, glyf bounding boxes (with and without vmtx) and the ascender fallback; CFF / bitmap / COLR extents, variable-font advances, "
         "kerx, fallback mark positioning with extents are not modelled",
     ]
@@ -306,8 +399,14 @@ def run(ctx):
     P.correspond(ctx, "cmap-metrics", cmap_lines(ctx.rng("cmap"), ctx.budget(1500, 100000)), classify=classify_cmap)
     P.correspond(ctx, "pipeline-shape", shape_lines(ctx.rng("shape"), chars, ctx.budget(600, 50000)),
                    classify=classify_shape)
+    # the value-record model behind C16_axis_value_record / _apply / _pair_apply against the crate's own Apply impls
+    # (requests, canonicalisation and classification are C07's: SinglePos / PairPos with device tables on a face with ppem)
+    import C07
+    ctx.correspond("gpos-apply-device", lines=C07.subd_lines(ctx.rng("subd"), ctx.budget(1500, 60000)),
+                   classify=C07.classify_subd, canon=C07.canon)
     macroman_search(ctx, shim)
     default_search(ctx, shim, chars, ctx.rng("default"), ctx.budget(500, 40000))
+    gpos_axis_search(ctx, shim, ctx.rng("gposaxis"), ctx.budget(300, 20000), ctx.budget(12, 16))
     corpus_monitors(ctx, shim, ctx.rng("corpus"), ctx.budget(300, 2128))
 
 
